@@ -24,7 +24,7 @@ func dedupDec(s *gen.TypeSpec, seen map[string]bool, counter *int) {
 	for i := range s.Fields {
 		f := &s.Fields[i]
 		u := underPtr(f.T)
-		if f.Embedded && u.K == "struct" && !(f.HasTag && f.Tag != "" && !strings.HasPrefix(f.Tag, ",")) {
+		if f.Embedded && u.K == "struct" && !namedByTag(f) {
 			dedupDec(u, seen, counter)
 			continue
 		}
